@@ -4,6 +4,10 @@
 // Field layouts are written from RFC 791, RFC 8200, RFC 793, RFC 768, RFC 792 and IEEE 802.3/802.1Q.
 package packet
 
+// decoding does a bounded amount of work per datagram (C02): no function of this package may wait on a channel;
+// a channel operation has to be a case of a select with a default clause
+//@ pkgopt nonblocking *
+
 //@ globalinv errUnknownEtherType != nil && errUnknownHeaderProtocol != nil && errShortEthernetHeaderLength != nil
 //@ globalinv errShortIPv4HeaderLength != nil && errShortIPv6HeaderLength != nil && errShortEthernetLength != nil && errUnknownTransportLayer != nil && errUnknownL3Protocol != nil
 //@ globalinv errShortTCPHeaderLength != nil && errShortUDPHeaderLength != nil && errICMPHLenTooSHort != nil
